@@ -8,7 +8,7 @@ from ..strategies import crossing_pair, program_strategy, spec_strategy
 from ._sim_common import frac, summarize
 
 ID = "C16"
-RULE = ("Hypothesis generates 2 markets, a TradingHaltRule on one of them or (one case in four) on both (rate 0.005-0.1, haltingTimeLength 0-6) attached to "
+RULE = ("Hypothesis generates 2 markets, a TradingHaltRule on one of them or (one case in four) on both (rate 0.005-0.1, haltingTimeLength 0-6), in a third of the cases a second independent rule (own rate, length, target) attached to "
         "any session, 1-3 sessions with generated execution flags and lengths (so that halts end inside their session, at its "
         "end, or are cut by it), and scripted agents whose limit prices walk the price away from and back to the reference. A "
         "probe event registered after the rule records market price, p0 = get_market_price(0) and is_running after every fill. "
@@ -40,13 +40,20 @@ def cases(draw, tier):
     cfg["HALT"] = {"class": "TradingHaltRule", "targetMarkets": list(names) if both else [target], "triggerChangeRate": rate, "haltingTimeLength": L}
     if draw(st.integers(0, 5)) == 0:
         cfg["HALT"]["enabled"] = False
+    second = draw(st.integers(0, 2)) == 0
+    if second:
+        # a second, independent rule (a tiered breaker on the same market, or a rule on the other market)
+        cfg["HALT2"] = {"class": "TradingHaltRule", "targetMarkets": [draw(st.sampled_from(names))],
+                        "triggerChangeRate": draw(st.sampled_from([0.01, 0.03, 0.08])), "haltingTimeLength": draw(st.integers(0, 8))}
     cfg["P"] = {"class": "VProbeEvent", "hooks": [["execution", False, None, None, None]]}
     ns = draw(st.integers(1, 3))
     hs = draw(st.integers(0, ns - 1))
+    hs2 = draw(st.integers(0, ns - 1))
     for s in range(ns):
         cfg["simulation"]["sessions"].append({"sessionName": s, "iterationSteps": draw(st.integers(2, 12 if tier == "quick" else 40)), "withOrderPlacement": True,
                                               "withOrderExecution": draw(st.sampled_from([True, True, True, False])), "withPrint": False,
-                                              "maxNormalOrders": draw(st.integers(2, 6)), "events": (["HALT"] if s == hs else []) + (["P"] if s == hs else [])})
+                                              "maxNormalOrders": draw(st.integers(2, 6)),
+                                              "events": (["HALT"] if s == hs else []) + (["HALT2"] if second and s == hs2 else []) + (["P"] if s == ns - 1 else [])})
     return {"config": cfg, "seed": draw(st.integers(0, 2**31 - 1))}
 
 
@@ -55,19 +62,26 @@ def check_case(case):
     A = Analysis(case, res)
     sim, cfg = A.sim, case["config"]
     halt = cfg["HALT"]
-    enabled = halt.get("enabled", True)
-    L, rate = halt["haltingTimeLength"], halt["triggerChangeRate"]
-    targets = [sim.name2market[n] for n in halt["targetMarkets"]]
-    tidx = {m.market_id: sim.markets.index(m) for m in targets}
-    k = 0  # halts so far: one counter per rule, shared by its targets
-    halted_until = {m.market_id: None for m in targets}
-    halt_round = {m.market_id: False for m in targets}
+    # the rules in the order their hooks were registered (session by session, event by event)
+    rules = []
+    for sc in A.sess_cfg:
+        for name in sc.get("events", []):
+            if name in ("HALT", "HALT2"):
+                rc = cfg[name]
+                rules.append({"name": name, "targets": {sim.name2market[n].market_id for n in rc["targetMarkets"]}, "rate": rc["triggerChangeRate"],
+                              "L": rc["haltingTimeLength"], "enabled": rc.get("enabled", True), "k": 0})
+    target_ids = set().union(*[r["targets"] for r in rules if r["enabled"]]) if any(r["enabled"] for r in rules) else set()
+    all_target_ids = set().union(*[r["targets"] for r in rules])
+    pos = {m.market_id: sim.markets.index(m) for m in sim.markets}
+    halted_until = {mid: None for mid in all_target_ids}   # per market: last step of the halt in force
+    halt_round = {mid: False for mid in all_target_ids}
     cur_session = None
     n_halts = 0
     halted_steps = 0
     accepted_during_halt = 0
     cut_by_session = 0
     m0 = sim.markets[0]
+    L = halt["haltingTimeLength"]
     for kind, kw in A.items:
         if kind == "log.direct" and kw["log_type"] == "MarketStepBeginLog":
             mk = sim.id2market[kw["market_id"]]
@@ -79,22 +93,20 @@ def check_case(case):
                     if halted_until[mid] is not None:
                         cut_by_session += 1
                     halted_until[mid] = None  # a halt ends with its session
-            if mk.market_id in halted_until:
-                mid = mk.market_id
+            mid = mk.market_id
+            if mid in halted_until:
                 if halted_until[mid] is not None and t > halted_until[mid]:
                     halted_until[mid] = None
                 exp_running = A.sess_cfg[ses]["withOrderExecution"] and halted_until[mid] is None
                 if halted_until[mid] is not None:
                     halted_steps += 1
-                if kw["running"][tidx[mid]] != exp_running:
+                if kw["running"][pos[mid]] != exp_running:
                     raise Violation("C16.halt_schedule", f"step {t} (session {ses}, executes={A.sess_cfg[ses]['withOrderExecution']}): target {mk.name} is_running="
-                                                         f"{kw['running'][tidx[mid]]}, expected {exp_running} (halt in force until step {halted_until[mid]}, length {L}, "
-                                                         f"halts so far {k})")
-            else:
-                j = sim.markets.index(mk)
-                if kw["running"][j] != A.sess_cfg[ses]["withOrderExecution"]:
-                    raise Violation("C16.non_target_untouched", f"step {t}: non-target market {mk.name} is_running={kw['running'][j]} in a session with "
-                                                                f"withOrderExecution={A.sess_cfg[ses]['withOrderExecution']}")
+                                                         f"{kw['running'][pos[mid]]}, expected {exp_running} (halt in force until step {halted_until[mid]}; rules "
+                                                         f"{[(r['name'], r['rate'], r['L'], r['k']) for r in rules]})")
+            elif kw["running"][pos[mid]] != A.sess_cfg[ses]["withOrderExecution"]:
+                raise Violation("C16.non_target_untouched", f"step {t}: non-target market {mk.name} is_running={kw['running'][pos[mid]]} in a session with "
+                                                            f"withOrderExecution={A.sess_cfg[ses]['withOrderExecution']}")
         if kind == "log.write" and isinstance(kw["log"], (OrderLog, CancelLog)):
             for mid in halt_round:
                 halt_round[mid] = False
@@ -106,26 +118,36 @@ def check_case(case):
             if mid in halted_until:
                 if halted_until[mid] is not None and not halt_round[mid]:
                     raise Violation("C16.no_fill_while_halted", f"fill at time {l.time} on the halted target market {mid} (halt in force until step {halted_until[mid]})")
-                if enabled and halted_until[mid] is None and abs(kw["p0"] - kw["mp"]) >= abs(kw["p0"] * rate * (k + 1)):
-                    halted_until[mid] = l.time + L
-                    k += 1
+                triggered = None
+                if halted_until[mid] is None:
+                    for r in rules:  # the first registered rule whose (moving) line is crossed stops the market
+                        if r["enabled"] and mid in r["targets"] and abs(kw["p0"] - kw["mp"]) >= abs(kw["p0"] * r["rate"] * (r["k"] + 1)):
+                            triggered = r
+                            break
+                if triggered is not None:
+                    halted_until[mid] = l.time + triggered["L"]
+                    triggered["k"] += 1
                     n_halts += 1
                     halt_round[mid] = True
                     if kw["running"]:
-                        raise Violation("C16.halts_at_once", f"price {kw['mp']!r} deviates from p0 {kw['p0']!r} by at least rate*{k} but the market is still running after the fill")
+                        raise Violation("C16.halts_at_once", f"price {kw['mp']!r} deviates from p0 {kw['p0']!r} by at least rate*{triggered['k']} of rule "
+                                                             f"{triggered['name']} but the market is still running after the fill")
                 elif kw["running"] is False and halted_until[mid] is None:
-                    raise Violation("C16.unexpected_halt", f"target stopped after a fill at {kw['mp']!r} (p0 {kw['p0']!r}, threshold rate*{k + 1}={rate * (k + 1)})")
+                    raise Violation("C16.unexpected_halt", f"target {mid} stopped after a fill at {kw['mp']!r} (p0 {kw['p0']!r}; rules "
+                                                           f"{[(r['name'], r['rate'], r['k']) for r in rules]})")
             else:
                 # a fill on a market that is not a target: the property does not forbid it while a target is halted
                 if kw["running"] is False:
                     raise Violation("C16.no_fill_on_stopped_market", f"fill at time {l.time} on market {mid}, which reports is_running=False")
+    enabled = any(r["enabled"] for r in rules)
+    targets = [m for m in sim.markets if m.market_id in all_target_ids]
     # independent of the model: no fill is ever recorded for a market that was not running at the preceding step-begin
     # observation unless it was (re)started in between -- covered by the schedule above; here the plain invariant on the
     # trace: a fill's market reports is_running in the probe hook of the first fill of each round
     returned = len(A.returned_orders)
     if len(A.order_logs) != returned:
         raise Violation("C16.orders_accepted_during_halt", f"{returned} orders submitted, {len(A.order_logs)} accepted")
-    classes = (["two_targets"] if len(targets) == 2 else []) + (["halt"] if n_halts else []) + (["two_halts"] if n_halts >= 2 else []) + (["accepted_during_halt"] if accepted_during_halt else []) + \
+    classes = (["two_targets"] if len(halt["targetMarkets"]) == 2 else []) + (["two_rules"] if len(rules) == 2 else []) + (["halt"] if n_halts else []) + (["two_halts"] if n_halts >= 2 else []) + (["accepted_during_halt"] if accepted_during_halt else []) + \
               (["cut_by_session"] if cut_by_session else []) + (["disabled"] if not enabled else [])
     return CaseInfo(nontrivial=n_halts >= 1, classes=classes, steps=A.total_steps,
                     sample={"rule": halt, "sessions": [(s["iterationSteps"], s["withOrderExecution"]) for s in A.sess_cfg], "halts": n_halts,
